@@ -322,6 +322,36 @@ func runSerial(w *tracelog.Writer, seed int64, traces, ops int) error {
 				scriptInbound = append(scriptInbound, false)
 			}
 		}
+		// a second laid-out prefix (traces 6, 14, ...): one bucket is filled (16 entries, one of them of the public /24 O) and its
+		// replacement list too (10: the oldest of O - O is now at the bucket's limit of two -, two of another /24 P - also at the
+		// limit -, seven scattered ones); a third node of P is refused by the limit while the list is full; then two more nodes of
+		// O are offered: both must be refused (seed C07-3 released the oldest replacement's address before the refusal and kept
+		// the node, so the bucket ended with three nodes of O; it showed only in some concurrent schedules before)
+		if t%8 == 6 && !lanOnly {
+			used := map[int]bool{}
+			add := func(ip int) {
+				for _, p := range wd.peers[1:] {
+					if p.ld == 256 && !used[p.idx] {
+						used[p.idx] = true
+						script = append(script, mkNode(p.id, wd.ips[ip], 30400+len(script), 1))
+						scriptInbound = append(scriptInbound, false)
+						return
+					}
+				}
+			}
+			for ip := 24; ip <= 35; ip++ { // twelve LAN entries
+				add(ip)
+			}
+			for _, ip := range []int{36, 37, 38, 1} { // three scattered public ones and the entry of O
+				add(ip)
+			}
+			for _, ip := range []int{0, 6, 7, 39, 40, 41, 42, 43, 44, 45} { // the replacement list, oldest first
+				add(ip)
+			}
+			for _, ip := range []int{8, 2, 3} { // refused for P; then two more of O
+				add(ip)
+			}
+		}
 		for step := 0; step < ops; step++ {
 			op := map[string]any{"name": "", "id": -1, "inbound": false, "seq": 0, "net": -2, "ip": -1, "port": 0, "alive": false, "credit": 0,
 				"ok": false, "fails": 0, "nb": 0, "found": []int{}, "newrec": false, "isentry": false, "ld": 0}
